@@ -827,7 +827,21 @@ func c10SigVerify(r *Run) {
 						continue
 					}
 					if isLenOf(be.X) && isLenOf(be.Y) {
-						okCount = true
+						// the signature list is compared with the list of required signers
+						sx, sy := exprString(be.X), exprString(be.Y)
+						hasSigs := strings.Contains(sx+sy, "sigs")
+						hasSigners := false
+						for _, side := range []ast.Expr{be.X, be.Y} {
+							arg := stripParens(side).(*ast.CallExpr).Args[0]
+							for _, d := range v.resolveDefs(arg, 0) {
+								if strings.HasSuffix(exprString(d), ".GetSigners()") {
+									hasSigners = true
+								}
+							}
+						}
+						if hasSigs && hasSigners {
+							okCount = true
+						}
 					}
 				}
 				r.check(okCount, "C10.R5", e.Name+"|sigcount|create-price", v.pos(c), "len(signatures) == len(signers) holds before verification",
